@@ -45,7 +45,7 @@ EXPECTED_PROBES = ["roundtrip_request", "roundtrip_response", "piv_len_1", "piv_
                    "piv_len_5", "fault_flip_opt", "fault_flip_ct", "fault_piv", "fault_kid", "fault_ctx", "fault_flags",
                    "fault_trunc", "fault_drop_opt", "fault_swap_ct", "fault_swap_opt", "foreign_keys", "cross_pairing",
                    "cross_pairing_other_context", "response_own_piv", "response_replayed", "id_context_present",
-                   "empty_sender_id", "allflips_messages", "rejected_decode_error", "rejected_tag", "both_directions", "oversized_response_attempted"]
+                   "empty_sender_id", "allflips_messages", "rejected_decode_error", "rejected_tag", "both_directions", "oversized_response_attempted", "file_backed_context"]
 
 MAX_SEQNO = 2 ** 40 - 1
 ALGS = ["AES-CCM-16-64-128", "AES-CCM-16-64-256", "AES-CCM-64-64-128", "AES-CCM-64-64-256",
@@ -200,7 +200,7 @@ def gen_ctx(r):
     return {"alg": alg, "hash": r.choice(["sha256", "sha256", "sha384", "sha512"]), "sid": sid.hex(), "rid": rid.hex(),
             "idctx": None if idctx is None else idctx.hex(), "secret": r.randbytes(16).hex(),
             "salt": r.randbytes(r.choice([0, 8])).hex(), "seq_a": seq(), "seq_b": seq(),
-            "send_ctx": not r.chance(0.15)}
+            "send_ctx": not r.chance(0.15), "fs": r.chance(0.2)}
 
 
 def gen(r, tier):
@@ -266,6 +266,10 @@ def corpus():
                 "ops": [_simple_op(cross=[1, 2], cross_other=True, foreign=["secret", "salt", "idctx", "reflect", "alg"]),
                         _simple_op(cross=[0, 2], own_piv=True, replay_resp=True),
                         _simple_op(cross=[0, 1], cross_other=True)], "name": "cross-pairing"})
+    # the answering end loaded from a context directory, with and without an ID context
+    for idc in (None, "37cbf3210017a2d3", ""):
+        out.append({"ctx": _fixed_ctx(sid="01", rid="02", idctx=idc, fs=True),
+                    "ops": [_simple_op(own_piv=True, foreign=["idctx", "secret"]), _simple_op(rev=True, cross=[0])], "name": "file-backed-context"})
     # a response that cannot be protected (too large) between two that can
     for alg in ("AES-CCM-16-64-128", "AES-CCM-64-64-128", "ChaCha20/Poly1305"):
         out.append({"ctx": _fixed_ctx(sid="01", rid="02", alg=alg), "ops": [_simple_op(own_piv=True, big_between=True),
@@ -574,6 +578,22 @@ def execute(sim, scn):
 
     A = mk(sid, rid, seq=c.get("seq_a", 0))
     B = mk(rid, sid, seq=c.get("seq_b", 0))
+    fs_run = None
+    fs_seams = None
+    if c.get("fs") and hf == "sha256":
+        # the answering end is the library's file-backed context, loaded from a context directory with these very
+        # parameters (its keys come out of ITS loading code, not out of this check's helper)
+        from . import c13
+        fs_run = c13.Run(osc, {"ctx": {"alg": alg, "sid": c["rid"], "rid": c["sid"], "idctx": c.get("idctx"), "secret": c["secret"],
+                                       "salt": c.get("salt") or "", "window": 32, "chunk_start": None, "chunk_limit": None},
+                               "init": {"next": c.get("seq_b", 0), "received": {"index": 0, "bitfield": 0}}, "ops": [], "crash": {"mode": "none"}},
+                         None, scn.get("run_seed", 0))
+        fs_seams = fs_run.F.Seams(osc, fs_run.fs, fs_run.secrets, clock=fs_run.clock)
+        fs_seams.__enter__()
+        fs_run.load()
+        if fs_run.N is not None:
+            B = fs_run.N
+            sim.probe("file_backed_context")
     Bs = mk(rid, sid)  # shadow receiver of faulted requests: same keys, window reset before every delivery
     As = mk(sid, rid)  # the same for exchanges in the other direction (B asks, A answers)
     other_secret = bytes(b ^ 0x5A for b in secret)
@@ -886,6 +906,10 @@ def execute(sim, scn):
                     sim.probe("response_replay_accepted")
                 except osc.ProtectionInvalid:
                     sim.probe("response_replay_rejected")
+    if fs_seams is not None:
+        for obj in fs_run.objs:
+            fs_run.discard(obj)
+        fs_seams.__exit__(None, None, None)
     sim.log("c11", state["faulted"], sig.hexdigest(), len(sim.violations), len(sim.anomalies))
     for v in sim.violations:
         sim.log("violation", v["kind"])
